@@ -190,6 +190,19 @@ def normalisation(ctx, rule='C15-R2', rule3='C15-R3'):
     ctx.check(_is_data(s.ret, fx), rule, Q, f.node.name, f.loc(),
               f'the returned object is {T.show(s.ret, maxlen=120)}: not the normalised private copy',
               instance='returns the normalised copy')
+    # the values of the caller's columns are handed on as they came: the only stores into the working copy are the dtype
+    # casts of a column onto itself (a hit blanked, clipped or re-typed here is a hit the rest of the chain never sees)
+    for e in evs:
+        if e.kind not in ('store', 'aug') or e.base is None or not _is_data(e.base, fx):
+            continue
+        tgt, v = e.target, e.value
+        col = tgt[2] if tag(tgt) in ('sub', 'col') else None
+        cast = e.kind == 'store' and tag(v) == 'mcall' and v[2] == 'astype' and tag(T.peel(v[1])) in ('sub', 'col', 'vals') and \
+            T.contains(v[1], lambda x, col=col: tag(x) in ('sub', 'col') and x[2] == col and _is_data(x[1], fx))
+        ctx.check(cast, rule, Q, e.node, e.loc(),
+                  f'the screening writes {T.show(tgt, maxlen=80)} := {T.show(v, maxlen=120)}: it may cast a column to the required '
+                  'dtype and drop superfluous columns, nothing else - the hits are handed on with the values they came with',
+                  instance='stores into the working copy are dtype casts only')
     # ordering: coercion and removal of extra columns precede the duplicate test
     casts = [e for e in evs if e.kind == 'store' and tag(e.value) == 'mcall' and e.value[2] == 'astype']
     drops = [e for e in evs if e.kind == 'mutcall' and e.note == 'drop' or
@@ -285,6 +298,14 @@ def required_columns(ctx, rule='C15-R4'):
     ctx.check(ok, rule, cq, first.node if first else cf.node.name, cf.loc(),
               'chunk construction does not start by screening its data with check_data_consistency(data, DATA_COLS)',
               instance='_cleanup_pdf screens first, with DATA_COLS')
+    # ... and only there: what the chunk makes of the data afterwards (hits above the MSA blanked to type 0, rows dropped)
+    # is not input any more, and can look like one of the documented defects without being one
+    again = [e for e in fx.deep_events('ampycloud.data.AbstractChunk.__init__')
+             if e.kind == 'call' and call_head(e) == Q and (first is None or e.node is not first.node)]
+    ctx.check(not again, rule, cq, again[0].node if again else cf.node.name, again[0].loc() if again else cf.loc(),
+              'the chunk data is screened a second time after the chunk has started to rewrite it: frames that meet none of '
+              'the documented conditions are refused (a blanked first hit next to a kept second hit is a "coincidence")',
+              instance='chunk construction screens the input once')
     init = p.func('ampycloud.data.AbstractChunk.__init__', rule)
     calls = [e for e in fx.own_events(init.qname) if e.kind == 'call' and call_head(e) == cq]
     ctx.check(len(calls) == 1, rule, init.qname, init.node.name, init.loc(),
